@@ -185,7 +185,9 @@ def _calls(ctx, group, layout):
                 # falsy in-place flags that are not the literal False (rank-1 cores: closed-form factorisations)
                 lambda: T.orthogonalize_right(Y1, 1, np.False_), lambda: T.orthogonalize_right(Y1, 1, 0),
                 lambda: T.orthogonalize_left(Y1, 0, np.False_), lambda: T.orthogonalize_left(Y1, 0, 0),
-                lambda: T.orthogonalize_right(Y1, 1, np.array([1, 2])[0] > 5)]
+                lambda: T.orthogonalize_right(Y1, 1, np.array([1, 2])[0] > 5),
+                # a tensor with a single core: both sweeps are empty, the result is still a copy
+                lambda: T.orthogonalize(Yd1, 0), lambda: T.orthogonalize(Yd1, 0, True), lambda: T.orthogonalize(Yd1)]
     if group == 'core':
         G = _layout(ctx.array('g', (2, 2, 2)), layout)
         R = _layout(ctx.array('r', (2, 2)), layout)
@@ -254,7 +256,7 @@ def _calls(ctx, group, layout):
     raise KeyError(group)
 
 
-N_STEPS = {'act': 38, 'core': 16, 'tensors_grid': 16, 'func': 18, 'anova_sample': 4, 'optima': 11}
+N_STEPS = {'act': 38, 'core': 16, 'tensors_grid': 16, 'func': 18, 'anova_sample': 4, 'optima': 14}
 
 
 def h_templates(ctx, group, layout, step):
@@ -331,6 +333,12 @@ def h_concrete_layouts(ctx, layout):
         teneva.svd_matrix(L(rng.normal(size=(4, 4))), 1e-8)
         teneva.als(I, y, Y, nswp=2); teneva.als(I, y, Y, nswp=1, w=L(np.ones(len(I))), lamb=None)
         teneva.als(I, y, Y, nswp=1, update_sol=1e-2); teneva.als(I, y, Y, nswp=1, update_sol=0.5, w=L(np.ones(len(I))))
+        for shp in ([4, 1, 3], [1, 4, 3], [3, 4, 1]):           # a mode of size 1: every sample lies in its only slice
+            Ym = [L(G) for G in teneva.rand(shp, 2, seed=12)]
+            Im = teneva.sample_lhs(shp, 12, seed=3)
+            ym = L(teneva.get_many(Ym, Im))
+            teneva.als(Im, ym, Ym, nswp=1, lamb=None); teneva.als(Im, ym, Ym, nswp=1)
+            teneva.als(Im, ym, Ym, nswp=1, lamb=None, w=L(np.ones(12)))
         teneva.svd(L(rng.normal(size=7)), 1e-8); teneva.svd_matrix(np.asfortranarray(rng.normal(size=(2, 2))), 1e-8)
         teneva.cross(lambda J: teneva.get_many(Y, J), Y, nswp=1)
         teneva.anova(I, y, r=2, order=2, seed=4)
